@@ -328,7 +328,7 @@ def check(ctx):
     ctx.trusted = ["core::iter::Zip::next polls its receiver first and returns None without polling the argument when the receiver is exhausted (the source is passed as `&mut I`, which is not TrustedRandomAccess)",
                    "Take<I> polls at most n items; Vec::extend stores items in production order"]
     ctx.assumptions = ["the panic message text is not checked", "a lying size_hint can cause an early Err, never an Ok (C07.O is independent of the hint)"]
-    cfgs = ["F0", "F1"] if ctx.tier == "quick" else ["F0", "F1", "F2"]
+    cfgs = ["F0", "F1", "F1N"] if ctx.tier == "quick" else ["F0", "F1", "F1N", "F2", "F0N", "F2N"]
     ctx.need(*cfgs)
     for cfg in cfgs:
         verify_models(ctx, cfg, ["IntrusiveArrayBuilder<$0,$1>::is_full", "ArrayBuilder<$0,$1>::is_full", "IntrusiveArrayBuilder<$0,$1>::iter_position"])
